@@ -8,7 +8,7 @@ SetOf(seq) == {seq[i] : i \in 1..Len(seq)}
 
 ObsInit == \E i \in 1..Len(Rec) :
    /\ subs = [j \in 1..Len(Rec[i].subs) |-> [prefix |-> Rec[i].subs[j].chars, fate |-> Rec[i].subs[j].fate]]
-   /\ key = Rec[i].keychars /\ kind = Rec[i].kind /\ done = TRUE
+   /\ key = Rec[i].keychars /\ kind = Rec[i].kind /\ done = TRUE /\ ops = <<>>
    /\ calls = [set |-> SetOf(Rec[i].observed), n |-> Len(Rec[i].observed), panic |-> Rec[i].panic]
 ObsNext == UNCHANGED vars
 
